@@ -170,7 +170,7 @@ def r19_3(rep, M, rid):
             guard = s
     if guard is None:
         raise AnalysisError("get_radii: `if isinstance(radii, str)` guard not found")
-    inside = {id(x) for x in ast.walk(guard)}
+    inside = {id(x) for b in guard.body for x in ast.walk(b)}
     bad = None
     for n, d in cfg.g.nodes(data=True):
         s = d["ast"]
